@@ -91,7 +91,10 @@ def detect(args):
                     ev = os.path.join(VERIF, "evidence", p + ".json")
                     keep = open(ev).read() if os.path.exists(ev) else None
                     t0 = time.time()
-                    rc2, o2 = sh([os.path.join(VERIF, "check"), p, "--tier", "quick"], cwd=VERIF, timeout=3600)
+                    cmd = [os.path.join(VERIF, "check"), p, "--tier", "quick"]
+                    if meta.get("only_harnesses", {}).get(p):
+                        cmd = [os.path.join(VERIF, "check"), p, "--tier", "thorough", "--only", ",".join(meta["only_harnesses"][p])]
+                    rc2, o2 = sh(cmd, cwd=VERIF, timeout=5400)
                     viol = [l for l in o2.split("\n") if l.startswith("VIOLATION") or l.startswith("  failed check") or l.startswith("INCONCLUSIVE") or l.startswith("KNOWN-FINDING")]
                     res["checks"][p] = {"exit": rc2, "lines": viol[:12], "s": round(time.time() - t0)}
                     if keep is not None:      # the evidence of the unchanged tree stays what is committed
